@@ -12,6 +12,8 @@ def _classes(F):
         "Symlink": lambda p, xs: F.HSym(F.Node("tgt"), parent=p, children=xs),
         "PlainNode": lambda p, xs: F.Node("new", parent=p, children=xs),
         "PlainAnyNode": lambda p, xs: F.AnyNode(parent=p, children=xs),
+        "FalsyAny": lambda p, xs: F.FalsyAny(parent=p, children=xs, id="new", name="new"),
+        "FalsyNode": lambda p, xs: F.FalsyNode("new", parent=p, children=xs),
     }
 
 
@@ -31,8 +33,8 @@ def expected(ch, p, xs, xs_truthy, fam):
 
 def one(ctx, F, clsname, ch, p, xs, wrap):
     fam = "LM" if clsname == "LM" else "NM"
-    base = "LM" if clsname == "LM" else ("NM" if clsname == "NM" else "Node")
-    nodes = F.materialise(base if base != "Node" else "Node", ch)
+    base = {"LM": "LM", "NM": "NM", "FalsyAny": "FALSYANY", "FalsyNode": "FALSYNODE"}.get(clsname, "Node")
+    nodes = F.materialise(base, ch)
     rec = F.Rec(nodes)
     pobj = None if p is None else F._resolve(nodes, p)
     xobjs = [F._resolve(nodes, x) for x in xs]
@@ -90,11 +92,11 @@ def run(ctx):
 
     T = ctx.tier == "thorough"
     idx = 0
-    for clsname in ("Node", "AnyNode", "NM", "LM", "Symlink", "PlainNode", "PlainAnyNode"):
+    for clsname in ("Node", "AnyNode", "NM", "LM", "Symlink", "PlainNode", "PlainAnyNode", "FalsyAny", "FalsyNode"):
         for k in (1, 2, 3) + ((4,) if T else ()):
             U = list(range(k))
             for ch in gen.ordered_forests(k):
-                parents = [None] + U + ([("nonnode", "object")] if clsname != "LM" else [])
+                parents = [None] + U + ([("nonnode", x) for x in ("object", "zero", "emptystr", "emptylist", "false", "emptydict")] if clsname != "LM" else [])
                 for p in parents:
                     seqs = list(gen.sequences_norep(U, k if k < 4 else 2))
                     seqs += [(0, 0)] if k >= 1 else []
@@ -105,7 +107,7 @@ def run(ctx):
                             idx += 1
                             if ctx.mine(idx):
                                 one(ctx, F, clsname, ch, p, xs, wrap)
-    ctx.exhaustive.append("constructors of 7 node classes: all forests k<=%d x every parent= x every repetition-free children= sequence" % (4 if T else 3))
+    ctx.exhaustive.append("constructors of 9 node classes (incl. falsy node classes and falsy non-node parents): all forests k<=%d x every parent= x every repetition-free children= sequence" % (4 if T else 3))
 
 
 def replay(ctx, wit):
